@@ -77,6 +77,12 @@ func (x *fleetExec) chmap(e engine.Event, nd *knode, sig string) bool {
 		}
 	}
 	dst := &knode{spec: *spec, mapping: nm, mkey: mapKey(spec), tainted: !identity || nd.tainted}
+	if identity {
+		// documented: with an equal mapping and scale 1 the result is a copy of the source - it
+		// keeps the source's store kind, the supplied stores are not used
+		dst.spec.Store, dst.spec.N = nd.spec.Store, nd.spec.N
+		spec = &dst.spec
+	}
 	x.lib("ChangeMapping", sig, func() {
 		switch s := nd.real.(type) {
 		case *ddsketch.DDSketch:
